@@ -14,6 +14,7 @@ EXPLANATION = (
 EXPLANATION += " Also decided: the backup path of every directory rebuild moves aside is cleared first (a directory cannot be renamed over a non-empty one: the second rebuild of a store would fail half-way), and nothing but a stale *.bak is ever removed."
 EXPLANATION += " Also decided: every LMDB environment rebuild opens is the returned store's or is explicitly closed on every path to Ok (one that is merely dropped stays in heed's process-wide cache and is handed to the next rebuild of the same backup path)."
 EXPLANATION += ' Also decided: the three marker/id lookups answer only from their tables (a process-local flag or cache does not survive reopen).'
+EXPLANATION += ' Also decided: index tables are written only by Lmdb::index and deleted from only by deindex/deindex_id (rebuild re-indexes in full whatever the id index lists).'
 ASSUMPTIONS = []
 
 
